@@ -171,16 +171,23 @@ func specParsed(p *FrameParser) bool {
 //@ requires[pre.nonnil]      parser != nil && source != nil
 //@ requires[pre.parsers]     parser.parserv4 != nil && parser.parserv6 != nil
 //@ ensures[C09.rap.ok]       ret0 == nil ==> specParsed(parser)
-//@ modifies FrameParser.IP4, FrameParser.IP6, FrameParser.TCP, FrameParser.ICMP4, FrameParser.ICMP6, FrameParser.Payload, FrameParser.Layers, gopacket.DecodingLayerParser, elems(buffer), ghost clock
+//@ ensures[C09.rap.class]    ret0 != nil && !chain(ret0, *common.ReceiveProbeNoPktError) && !chain(ret0, *common.BadPacketError) ==> ioFail
+//@ ensures[C09.rap.io]       ioFail == old(ioFail) || ret0 != nil
+//@ ensures[C05.rap.clock]    now() >= old(now())
+//@ modifies FrameParser.IP4, FrameParser.IP6, FrameParser.TCP, FrameParser.ICMP4, FrameParser.ICMP6, FrameParser.Payload, FrameParser.Layers, gopacket.DecodingLayerParser, elems(buffer), ghost clock, ghost ioFail
 
 //@ iface Source.Read
 //@ requires[pre.buf]      true
 //@ ensures[src.read.n]    0 <= ret0 && ret0 <= len(buf)
+//@ ensures[src.clock]     now() >= old(now())
 //@ ensures[src.exterr]    ret1 != nil ==> noRepoErr(ret1)
-//@ modifies elems(buf), ghost clock
+//@ ensures[src.io]        ioFail == (old(ioFail) || (ret1 != nil && !isDeadline(ret1)) || (ret1 == nil && ret0 == 0))
+//@ modifies elems(buf), ghost clock, ghost ioFail
 
 //@ iface Source.SetReadDeadline
-//@ modifies nothing
+//@ ensures[src.exterr]    ret0 != nil ==> noRepoErr(ret0)
+//@ ensures[src.io]        ioFail == (old(ioFail) || ret0 != nil)
+//@ modifies ghost ioFail
 
 //@ iface Source.Close
 //@ modifies nothing
